@@ -623,7 +623,7 @@ class MQTTBaseProtocol(Protocol):
         if response.resultCode == 0:
             self.state = self.CONNECTED
             self.mqttConnectionMade()   # before the callbacks are executed ...
-            if request.keepalive != 0:
+            if request.keepalive != 0 and self.state is self.CONNECTED:   # not if the application has already disconnected
                 self._pingReq.keepalive = request.keepalive
                 self._pingReq.timer     = task.LoopingCall(self.ping)
                 self._pingReq.timer.start(request.keepalive)
